@@ -206,8 +206,12 @@ def name_tokens():
     object type names ...) that can be a file name: no '/', no NUL, not '.' / '..' / '-', not 'objects' (a plain
     directory must not start to look like a bare repository)"""
     from . import gitobj_common as G
+    # safety valve: a NAME must not be able to change what kind of argument a spelling is - no ':' (URL scheme
+    # look-alikes), no leading '-', no option values; such tokens stay in the string route, where the classifier decides
+    values = {t.encode() for t in TYPES}
     return [t for t in G.source_tokens("bytes")
-            if b"/" not in t and b"\x00" not in t and t not in (b".", b"..", b"-", b"objects") and len(t) <= 30]
+            if b"/" not in t and b"\x00" not in t and t not in (b".", b"..", b"-", b"objects") and len(t) <= 30
+            and b":" not in t and not t.startswith(b"-") and t not in values]
 
 
 def str_tokens():
@@ -290,6 +294,21 @@ def opens_as_repo(s):
         return True
     except Exception:
         return False
+
+
+def literal_kind(s):
+    """kind of an argument that names nothing as a path, decided on the literal string the way the command does:
+    urlparse raises -> badurl; no scheme -> missing; a scheme but model.Origin refuses the URL -> refusedurl; else url.
+    Used for the string route AND for a spelled path that ends up naming nothing (a file called 'swh:1:' spelled
+    'swh:1:/' relative to its directory is no path but has a scheme: an origin)"""
+    from urllib.parse import urlparse
+    try:
+        scheme = urlparse(s).scheme
+    except ValueError:
+        return "badurl"
+    if not scheme:
+        return "missing"
+    return "url" if origin_id(s) is not None else "refusedurl"
 
 
 def origin_id(s):
@@ -1083,7 +1102,10 @@ def cli_args(fx, cfg, row, argstr=None, idk=None, xpats=None):
             args += ["--exclude", p]
     if v != "none":
         dk, dx = row["des"].split(",")
-        good = obj_id(fx, idk or k, dk, dx == "1", None if idk else argstr, xpats) or PLACEHOLDER
+        if dk == "origin":
+            good = origin_id(kind_arg(fx, k, argstr)) or PLACEHOLDER
+        else:
+            good = obj_id(fx, idk or k, dk, dx == "1", None if idk else argstr, xpats) or PLACEHOLDER
         if v == "match":
             given = good
         else:
@@ -1375,9 +1397,19 @@ def impl(case):
             # from the object itself
             sp = case["path"]
             idk = sp["obj"]
-            assert cfg[0] == eff_kind(idk, sp["spell"], cfg[2]), "case kind is not the effective kind of the spelling"
             argstr = spelled(fx, fx[idk], sp["spell"], sp.get("rel"))
             cwd = spell_cwd(fx, idk, sp["spell"], sp.get("rel"))
+            k_eff = eff_kind(idk, sp["spell"], cfg[2])
+            if k_eff == "missing":
+                # the spelling names nothing as a path: what it is decides the literal string, as for any other argument
+                # that is not a path (a relative 'swh:1:/' has a scheme; an absolute '/tmp/.../swh:1:/' has none)
+                k_eff = literal_kind(argstr)
+            assert cfg[0] == k_eff or (cfg[0] in STRING_KINDS and k_eff in STRING_KINDS), \
+                "case kind is not the effective kind of the spelling"
+            if cfg[0] != k_eff:
+                case["cfg"][0] = k_eff          # in place: the request for the model's row is built after the run
+                cfg = case["cfg"]
+                row = table_row(cfg)
         xpats = None
         if case.get("xunder") and idk:
             # --exclude <absolute pattern spelled under the argument's own spelling>
@@ -1571,7 +1603,10 @@ def m_spell(m, i):
 
 
 def m_kind(m, i):
-    """kind of the i-th argument for the model: the kind its spelling makes of the object"""
+    """kind of the i-th argument for the model: the kind its spelling makes of the object (m['kinds'], filled in when
+    the case runs, overrides it for a spelling that names nothing: the literal string decides)"""
+    if m.get("kinds") and m["kinds"][i]:
+        return m["kinds"][i]
     return eff_kind(REF_KIND[m["args"][i]], m_spell(m, i), m["deref"])
 
 
@@ -1726,6 +1761,16 @@ def diff_many(obs, exp):
 def impl_many(case):
     fx = get_fixture(case["fx"])
     m = dict(case["multi"])
+    if m.get("spells"):
+        kinds = [None] * len(m["args"])
+        for i, r in enumerate(m["args"]):
+            if r not in STRING_REFS and r != "stdin" and eff_kind(REF_KIND[r], m_spell(m, i), m["deref"]) == "missing":
+                lk = literal_kind(ref_arg(fx, r, m_spell(m, i), m.get("rel", 0)))
+                if lk != "missing":
+                    kinds[i] = lk
+        if any(kinds):
+            case["multi"]["kinds"] = kinds      # in place: the request for the model's run is built after the run
+            m["kinds"] = kinds
     wd = fx["root"] if m.get("rel") or "stdin" in m["args"] else os.fsencode(os.getcwd())
     m["patterns"] = resolve_patterns(fx, m["patterns"], m, wd)
     m["_wd"] = wd
